@@ -17,6 +17,7 @@
         followed by edits) *)
 From CSL Require Import Base.Prelude Base.U64 Cbor.Head Num.Value Deposits.Deposits Builder.Totals Builder.Change
   Builder.Scenario Fees.Rational Fees.Fees FeeSuff.FeeModel FeeSuff.FeeSpec.
+From CSL Require FeeSuff.FeeConcrete MinAda.OutputSize.
 Local Open Scope N_scope.
 
 (* per UTxO: kind (0 key, 1 Byron, 2 native script, 3/4 Plutus script in the witness set with inline / witness datum,
@@ -118,6 +119,40 @@ Definition env_of (sc : scn) (ref_const : refs) (k : N) : env :=
   mkEnv (sc_a sc) (sc_b sc) (sc_max_tx sc) (fun _ => k) (lookup_obase sc) (ex_fee sc) (ref_fee sc ref_const).
 
 (* ------------------------------------------------------------------------------------------- *)
+(* the concrete size function (FeeConcrete.concrete_k: C07's full_tx_size algebra with C18's witness counts) on the plain
+   sub-class: key / Byron inputs and outputs, nothing else in the body or the witness set (a required signer is also a body
+   field: outside).  The
+   interpretation follows the harness: UTxO id i is outpoint (hash(i), i mod 7); a kind-0 UTxO is owned by key
+   kh(id mod 12); a kind-1 UTxO by Byron address number id mod 6 (numbers 0..2 mainnet: attributes a0, one byte;
+   3..5 testnet magic 1097911063: attributes a1 02 45 1a 41 70 cb 17, eight bytes) *)
+Definition interp_of (sc : scn) : FeeConcrete.interp :=
+  FeeConcrete.mkInterp
+    (fun id => id mod 7)
+    (fun id => if u_kind (lookup_uinfo sc id) =? 1 then FeeConcrete.IByron (id mod 6) else FeeConcrete.IKey (id mod 12))
+    [(0, 1); (1, 1); (2, 1); (3, 8); (4, 8); (5, 8)]
+    (fun _ => 0) (fun _ => MinAda.OutputSize.DNone) (fun _ => None).
+
+Definition state_plain (sc : scn) (s : state) : bool :=
+  forallb (fun e => u_kind (lookup_uinfo sc (fst e)) <=? 1) (s_inputs s)
+  && match s_certs s, s_withdrawals s, s_mint s, s_proposals s, s_donation s, s_treasury s with
+     | None, None, None, None, None, None => true
+     | _, _, _, _, _, _ => false
+     end.
+
+(* [cz] = Some signers while every operation so far kept the transaction in the sub-class *)
+Definition concrete_k_of (sc : scn) (cz : option (list N)) (s : state) : option N :=
+  match cz with
+  | Some sigs => if state_plain sc s then Some (FeeConcrete.concrete_k (interp_of sc) s) else None
+  | None => None
+  end.
+
+(* counters packed into one number: answers predicted from the measured K + 2^20 * answers predicted from the
+   concrete size function + 2^40 * answers used to calibrate K *)
+Definition cnt_measured : N := 1.
+Definition cnt_concrete : N := 1048576.
+Definition cnt_calibrated : N := 1099511627776.
+
+(* ------------------------------------------------------------------------------------------- *)
 (* the oracle *)
 
 Record ostate : Type := mkO {
@@ -180,12 +215,19 @@ Definition calibrate (sc : scn) (ref_const : refs) (st : state) (v : N) : option
   | _, _, _ => None
   end.
 
-Definition fee_answer (sc : scn) (ref_const : refs) (st : state) (o : ostate) : result N * ostate :=
+Definition fee_answer (sc : scn) (ref_const : refs) (cz : option (list N)) (st : state) (o : ostate) : result N * ostate :=
   match pop6 site_F o with
   | (None, o') => (Err, o')
   | (Some ans, o') =>
       let ids := map fst (s_inputs st) in
       let r := match ans with Some v => Ok v | None => Err end in
+      match concrete_k_of sc cz st with
+      | Some kc =>
+          (* the sub-class: the answer is predicted from the concrete size function, nothing measured is used *)
+          if res_eqb (min_fee_model (env_of sc ref_const kc) st) ans
+          then (r, mkO (o_tape o') (o_sel o') (o_bad o') (o_k o') (o_kpend o') (o_checked o' + cnt_concrete))
+          else (r, set_bad o')
+      | None =>
       (* bind a pending measurement to the input set of this (first) question *)
       let o1 := match known_k o' ids, o_kpend o' with
                 | None, Some k => mkO (o_tape o') (o_sel o') (o_bad o') (Some (ids, k)) None (o_checked o')
@@ -201,17 +243,18 @@ Definition fee_answer (sc : scn) (ref_const : refs) (st : state) (o : ostate) : 
           match ans with
           | Some v =>
               match calibrate sc ref_const st v with
-              | Some k => (r, mkO (o_tape o1) (o_sel o1) (o_bad o1) (Some (ids, k)) None (o_checked o1))
+              | Some k => (r, mkO (o_tape o1) (o_sel o1) (o_bad o1) (Some (ids, k)) None (o_checked o1 + cnt_calibrated))
               | None => (r, o1)
               end
           | None => (r, o1)
           end
       end
+      end
   end.
 
-Definition fee_oracle (sc : scn) (ref_const : refs) (utxos : list (N * value)) : @oracle ostate :=
+Definition fee_oracle (sc : scn) (ref_const : refs) (cz : option (list N)) (utxos : list (N * value)) : @oracle ostate :=
   mkOracle
-    (fun st o => fee_answer sc ref_const st o)
+    (fun st o => fee_answer sc ref_const cz st o)
     (fun _ o => pop_num6 site_A o)
     (fun _ o => pop_bool6 site_S o)
     (fun _ o => pop_bool6 site_T o)
@@ -236,6 +279,8 @@ Record rstate : Type := mkR {
   r_bal : option (bool * bool);        (* Some: a change computation succeeded and nothing was edited since (the pair, once the
                                           slack / binding figures of the old code's known classes, is now constantly (true, false)) *)
   r_coll : bool;                       (* a collateral input was added *)
+  r_plain : bool;                      (* every operation so far kept the transaction in the plain sub-class *)
+  r_sigs : list N;                     (* keys added with add_required_signer (x sig) *)
   r_sdh : bool                         (* the script data hash is set (the harness sets it before the first change computation
                                           when a Plutus input is present) *)
 }.
@@ -263,27 +308,29 @@ Definition run_op6 (sc : scn) (utxos : list (N * value)) (x : op6) (tape : list 
     (sel : option (list N * bool)) (k : option N) (r : rstate) : opres * rstate * N :=
   let s := r_st r in
   let o := start_o tape sel k in
-  let orc := fee_oracle sc (r_ref r) utxos in
+  let cz := if r_plain r then Some (r_sigs r) else None in
+  let orc := fee_oracle sc (r_ref r) cz utxos in
   let sdh := r_sdh r || has_plutus_input sc s in
   match x with
   | Aux tag n =>
       (match tape, sel with [], None => ROk | _, _ => RDesync end,
-       mkR s (if tag =? 1 then (fst (r_ref r) + n, snd (r_ref r)) else r_ref r) None (r_coll r || (tag =? 2)) (r_sdh r), 0)
+       mkR s (if tag =? 1 then (fst (r_ref r) + n, snd (r_ref r)) else r_ref r) None (r_coll r || (tag =? 2))
+           false (if tag =? 3 then r_sigs r ++ [n] else r_sigs r) (r_sdh r), 0)
   | AuxXr id size =>
       (match tape, sel with [], None => ROk | _, _ => RDesync end,
-       mkR s (fst (r_ref r), xr_insert id size (snd (r_ref r))) None (r_coll r) (r_sdh r), 0)
+       mkR s (fst (r_ref r), xr_insert id size (snd (r_ref r))) None (r_coll r) false (r_sigs r) (r_sdh r), 0)
   | Base (OpChange addr extra) =>
       let res := add_change orc fuel_default addr extra s o in
       (* since the repair (check_fee_after_change) no insufficient fee is excused: slack = true, binding = false *)
       let bal := match out_res res with Ok _ => Some (true, false) | _ => r_bal r end in
       let f := finish6 res RBool in
-      (fst f, mkR (snd f) (r_ref r) bal (r_coll r) sdh, o_checked (out_orc res))
+      (fst f, mkR (snd f) (r_ref r) bal (r_coll r) (r_plain r) (r_sigs r) sdh, o_checked (out_orc res))
   | Base (OpSelectChange avail addr extra) =>
       let us := resolve utxos avail in
       let res := add_inputs_from_and_change orc fuel_default us addr extra s o in
       let bal := match out_res res with Ok _ => Some (true, false) | _ => r_bal r end in
       let f := finish6 res RBool in
-      (fst f, mkR (snd f) (r_ref r) bal (r_coll r) sdh, o_checked (out_orc res))
+      (fst f, mkR (snd f) (r_ref r) bal (r_coll r) (r_plain r) (r_sigs r) sdh, o_checked (out_orc res))
   | Base OpBuild =>
       (* build_tx's pre-checks (tx_builder.rs build_tx: Plutus inputs need a script data hash and collateral; validate_inputs_intersection): they run
          before validate_fee, so nothing is asked of the oracle when they fail *)
@@ -294,15 +341,15 @@ Definition run_op6 (sc : scn) (utxos : list (N * value)) (x : op6) (tape : list 
       else
         let res := build_tx orc s o in
         let f := finish6 res (fun _ => ROk) in
-        (fst f, mkR (snd f) (r_ref r) (r_bal r) (r_coll r) (r_sdh r), o_checked (out_orc res))
+        (fst f, mkR (snd f) (r_ref r) (r_bal r) (r_coll r) (r_plain r) (r_sigs r) (r_sdh r), o_checked (out_orc res))
   | Base (OpOutput y) =>
       let res := add_output orc y s o in
       let f := finish6 res (fun _ => ROk) in
-      (fst f, mkR (snd f) (r_ref r) None (r_coll r) (r_sdh r), 0)
+      (fst f, mkR (snd f) (r_ref r) None (r_coll r) (r_plain r) (r_sigs r) (r_sdh r), 0)
   | Base b =>
       (* the operations that do not ask the oracle: C05's runner with an empty tape *)
       match run_op utxos b s (mkTape tape (match sel with Some x => Some x | None => None end) false) with
-      | (res, s', _) => (res, mkR s' (r_ref r) None (r_coll r) (r_sdh r), 0)
+      | (res, s', _) => (res, mkR s' (r_ref r) None (r_coll r) (r_plain r) (r_sigs r) (r_sdh r), 0)
       end
   end.
 
@@ -322,14 +369,20 @@ Fixpoint run_ops6 (sc : scn) (utxos : list (N * value)) (l : list (op6 * oprec))
   end.
 
 (* the figures compared with the implementation at the end: full_size() and the public min_fee() *)
+Definition final_k (sc : scn) (r : rstate) (measured : option N) : option N :=
+  match concrete_k_of sc (if r_plain r then Some (r_sigs r) else None) (r_st r) with
+  | Some k => Some k
+  | None => measured
+  end.
+
 Definition model_full_size (sc : scn) (r : rstate) (k : option N) : option N :=
-  match k, get_fee_if_set (r_st r) with
+  match final_k sc r k, get_fee_if_set (r_st r) with
   | Some k, Some f => if mint_ok (r_st r) then Some (tx_size (env_of sc (r_ref r) k) (r_st r) f) else None
   | _, _ => None
   end.
 
 Definition model_min_fee_pub (sc : scn) (r : rstate) (k : option N) : option N :=
-  match k with
+  match final_k sc r k with
   | Some k =>
       match min_fee_model (env_of sc (r_ref r) k) (set_final_fee two32 (r_st r)) with
       | Ok v => Some (get_new_fee (s_fee_request (r_st r)) v)
